@@ -2,7 +2,7 @@
 from checks import actors_common as ac
 
 THEOREMS = ['Poupool.C17.no_early_or_warm_stir', 'Poupool.C17.stirs_when_cold_or_unknown', 'Poupool.C17.filtration_pump_only_in_stir', 'Poupool.C17.swim_pump_only_in_stir']
-TIMING = ['Poupool.Timing.filtration_const_end_on_time', 'Poupool.Timing.filtration_const_last', 'Poupool.Timing.filtration_polls', 'Poupool.Timing.swim_wintering_stir', 'Poupool.Timing.swim_polls']
+TIMING = ['Poupool.Timing.swim_wintering_pause', 'Poupool.Timing.filtration_wintering_pause', 'Poupool.Timing.filtration_const_end_on_time', 'Poupool.Timing.filtration_const_last', 'Poupool.Timing.filtration_polls', 'Poupool.Timing.swim_wintering_stir', 'Poupool.Timing.swim_polls']
 MODULE = "Poupool.Properties.C17"
 
 
